@@ -492,7 +492,19 @@ func (c *caseRunner) runLine(line string) {
 	switch w[0] {
 	case "get":
 		v, sib, k := atoi(w[1]), w[2] == "1", unhx(w[3])
-		rsp, err := s.tree.SyncGet(ctx, &syncer.GetRequest{Tree: rootPos, Key: k, IncludeSiblings: sib, ProofVersion: uint16(v)})
+		pos := rootPos
+		if len(w) > 4 {
+			// A position the lookup never reaches (unset, or a hash that is no node of the tree): the
+			// position is only a hint, the server falls back to a proof anchored at the root, which must
+			// be the proof of the root-positioned request (ProofBuilder.Build) and resolve the key.
+			if w[4] == "fp1" {
+				pos.Position = hash.NewFromBytes(append([]byte("verif foreign position "), k...))
+			} else {
+				pos.Position = hash.Hash{}
+			}
+			c.res.Count("honest:get:foreign-position:" + w[4])
+		}
+		rsp, err := s.tree.SyncGet(ctx, &syncer.GetRequest{Tree: pos, Key: k, IncludeSiblings: sib, ProofVersion: uint16(v)})
 		if err != nil {
 			c.fail("spec", "syncget-error", fmt.Sprintf("SyncGet(%s): %v", hx(k), err))
 			return
